@@ -103,6 +103,25 @@ def gen_cells(ck):
             for st in script:
                 st["tell"] = [True]  # results of a batch all come back before the next ask
         cells.append((cell, spec, script, "asktell"))
+    # whole batches of failures told back (policies min / mean: the failures ARE passed to the
+    # optimizer), then an ask of the same size — what Search.search does with a fixed number of
+    # workers — for every constant-liar strategy (and the others) on finite spaces
+    for k in range(ck.pick(16, 200)):
+        spec, size = _finite_spec(rng)
+        surrogate = rng.choice(["ET", "RF", "ET", "GP"])
+        batch = rng.choice([2, 2, 3, 4])
+        n_rounds = min(-(-(size + 2) // batch), 10 if surrogate != "GP" else 7)
+        cell = {"search": "CBO", "seed": rng.randint(0, 10**6), "surrogate": surrogate,
+                "strategy": (["cl_min", "cl_mean", "cl_max"] * 2 + ["qUCB", "qUCBd"])[k % 8],
+                "acq": rng.choice(["UCB", "EI"]), "design": "random", "n_initial": rng.randint(1, 3),
+                "n_points": max(64, 8 * size), "filter_failures": rng.choice(["min", "mean"]),
+                "acq_optimizer_freq": rng.choice([1, 10])}
+        script = ac.gen_script(rng, max(n_rounds, 4), 8, fail_p=0.0, batches=[batch])
+        for j, st in enumerate(script):
+            st["tell"] = [True]
+            if j >= 1 and rng.random() < 0.45:
+                st["objs"] = [rng.choice(["F", "F_timeout", "F_crash"]) for _ in st["objs"]]
+        cells.append((cell, spec, script, "asktell"))
     return cells
 
 
